@@ -5,7 +5,7 @@ import random
 
 from ..core.vtime import VLoop, TICK
 
-KEYERROR, MISSING = 1, 2
+KEYERROR, MISSING, TYPEERROR = 1, 2, 3
 HORIZON = 100000
 
 
@@ -71,6 +71,10 @@ class Behaviour:
             elif kind == 3:
                 script.append((p['idelay'], ('yield', k, ('val', k, a, b))))
                 script.append((p['idelay'], ('yield', k, ('val', 999, 0, 0))))
+            elif kind == 5:
+                # an Exception instance that a future refuses (`set_exception(StopIteration())` raises TypeError):
+                # the model's script has `raise TypeError` at this point - every unanswered caller gets it
+                script.append((p['idelay'], ('yield', k, ('stop',))))
             else:
                 script.append((p['idelay'], ('yield', 99, ('val', 0, 0, 0))))
         script.append((p['tail'], ('fin',)))
@@ -100,7 +104,7 @@ def gen(rng, flavor):
         key = i if flavor == 'c10' else rng.randrange(nkeys)
         dk = rng.random() < 0.2 and key != 3      # key 3 is spelled '' (an explicit, falsy key): never the default str(arg)
         ins.append(('c', t, i, key if dk else rng.randint(0, 9), key, 1 if dk else 0))
-    per_kinds = [0, 0, 0, 1, 2, 3, 4]
+    per_kinds = [0, 0, 0, 0, 1, 1, 2, 2, 3, 3, 4, 4, 5]
     if flavor in ('c10', 'c09'):
         per_kinds = [0, 0, 0, 0, 1, 2] if flavor == 'c09' else [0]
     plan = dict(per=[[rng.choice(per_kinds) for _ in range(6)] for _ in range(max(nkeys, 1))],
@@ -182,7 +186,8 @@ def run_real(cfg, ins, plan, make_batcher=None):
                     out.append(('act', now(), b, idx))
                     if act[0] == 'yield':
                         r = act[2]
-                        yield kenc(act[1]), (E(r[1]) if r[0] == 'err' else tuple(r[1:]))
+                        yield kenc(act[1]), (E(r[1]) if r[0] == 'err' else StopIteration('s') if r[0] == 'stop'
+                                             else tuple(r[1:]))
                     elif act[0] == 'raise':
                         raise (EB if act[1] % 3 == 1 else E)(act[1])
             finally:
@@ -204,6 +209,8 @@ def run_real(cfg, ins, plan, make_batcher=None):
                 oc = ('exc', KEYERROR)
             except ValueError:
                 oc = ('exc', MISSING)
+            except TypeError:
+                oc = ('exc', TYPEERROR)
             except asyncio.CancelledError:
                 oc = ('cancelled',)
             except BaseException as e:  # noqa
@@ -494,6 +501,8 @@ def spec_outcome(script, keys, key):
             if k in seen or k not in keys:
                 return ('exc', KEYERROR), idx
             seen.add(k)
+            if r[0] == 'stop':
+                return ('exc', TYPEERROR), idx      # the refused answer fails everybody still unanswered, k included
             if k == key:
                 return (('exc', r[1]) if r[0] == 'err' else ('ok',) + tuple(r[1:])), idx
         elif act[0] == 'raise':
